@@ -603,7 +603,7 @@ def parse_pred_expr(lexer, unary_minus=False):
                     func_call(
                         "equals",
                         func_call("type", expr, None, pos),
-                        NodeLiteral(ValueString("None"), pos),
+                        NodeLiteral(ValueString("null"), pos),
                         pos,
                     ),
                     pos,
@@ -790,7 +790,7 @@ def parse_pred_expr(lexer, unary_minus=False):
             return func_call(
                 "equals",
                 func_call("type", expr, None, pos),
-                NodeLiteral(ValueString("None"), pos),
+                NodeLiteral(ValueString("null"), pos),
                 pos,
             )
         elif lexer.matchIf("func", "identifier"):
